@@ -386,9 +386,10 @@ def run(run_, ctx):
         run_.bad("N", "fmt_owned_dmt_to_buf", "formatter root not found by signature")
     run_.floor("N", 4)
     run_.explanation = (
-        "All %d functions/closures of the schema formatter and type-discovery walker (plus to_pseudocode, all_used_types, Display::fmt) are explored on all "
-        "MIR paths; explicit panics and MIR assertions are listed and must be discharged (vec[0] under !is_empty by LIN). For each of the 26+4 variants the "
-        "schema-typed fields are taken from the ADT tables and the walker's arm must visit each (directly, per element inside the loop, or through the data "
-        "closure) and nothing else, inserting only the visited node first. The formatter's top-level Struct/Enum paths must append the type name, each field "
-        "name and each variant name." % len(fns))
+        "All %d functions/closures reachable from to_pseudocode, all_used_types and Display::fmt inside postcard-schema are explored on all MIR paths; "
+        "explicit panics and MIR assertions are listed and must be discharged (linear arithmetic from the guards on the path). The walker (found by signature "
+        "and recursion) must, for each of the 26+4 variants, visit exactly the schema-typed fields given by the ADT tables (directly, per element inside a loop, "
+        "unconditional children on every returning path) and insert only the visited node (directly or under !contains) before descending. The formatter "
+        "(found by signature), explored per arm with all helpers in place, must append a top-level struct's / enum's own name, each field name right before "
+        "its type and each variant name before its payload." % len(fns))
     run_.trusted += ["String::add_assign / HashSet::insert / Vec::push / join / format! do not panic", "stack depth unbounded"]
